@@ -46,6 +46,13 @@ S1(ty, C, R) == [cols |-> <<Col("i", "int"), Col("x", ty), Col("s", "str")>>, ce
 S2(C1, C2, R) == [cols |-> <<Col("x", "Amount"), Col("i", "int"), Col("y", "Inventory"), Col("d", "Decimal")>>,
                   cells |-> <<C1, {}, C2, {}>>, max |-> R]
 S2p(C1, C2, R) == [cols |-> <<Col("p", "Position"), Col("q", "Position")>>, cells |-> <<C1, C2>>, max |-> R]
+(* equally NAMED columns (`SELECT units(position) AS x, cost(position) AS x`, `SELECT account AS s, narration AS s`):
+   two adjacent amount-like columns of one name and datatype followed by two plain ones of one name and datatype ... *)
+D1(ty, C1, C2, R) == [cols |-> <<Col("x", ty), Col("x", ty), Col("s", "str"), Col("s", "str")>>,
+                      cells |-> <<C1, C2, {}, {}>>, max |-> R]
+(* ... and interleaved (of one datatype, or of two: equal names, different descriptions) *)
+D2(ty1, ty2, C1, C2, R) == [cols |-> <<Col("s", "str"), Col("x", ty1), Col("s", "str"), Col("x", ty2)>>,
+                            cells |-> <<{}, C1, {}, C2>>, max |-> R]
 
 OddKeys == {1, 3, 5}
 AllKeys == 1..6
@@ -87,27 +94,41 @@ ShapesOf ==
            \* 3 currencies x <= 2 lots per currency space (numbers 1, -1)
            << S1("Amount", A01q, 3), S1("Amount", A5, 2), S1("Position", P1, 3), S1("Position", P5, 2),
               S1("Inventory", I1o3, 3), S1("Inventory", I2m2, 2), S1("Inventory", I2qo2, 2), S1("Inventory", I2a6, 1),
-              S2(A1, I1o2, 2), S2p(P1, Pq, 2) >>
+              S2(A1, I1o2, 2), S2p(P1, Pq, 2),
+              \* equally named columns: 2 rows x two Amount / Position / Inventory columns, one name
+              D1("Amount", A01q, A1, 2), D1("Position", P1, Pq, 2), D2("Inventory", "Inventory", I1o2, I1o2, 2),
+              D2("Position", "Amount", P1, A1, 2) >>
       [] Space = "thorough" ->
            \* 3 rows for every kind (inventories: 3 numbers x presence patterns; <= 2 lots over the six keys; cancelling
            \* lots of two currencies), 2 rows x <= 3 lots, 1 row x the full space with 3 numbers
            << S1("Amount", A5, 3), S1("Position", P5, 3),
               S1("Inventory", I2qo3, 3), S1("Inventory", I1a2, 3), S1("Inventory", I2m2, 3),
               S1("Inventory", I3o3, 2), S1("Inventory", I2a2, 2), S1("Inventory", I2a3, 2), S1("Inventory", I3a6, 1),
-              S2(A3, I2qo2, 2), S2p(P2q, P2q, 2) >>
+              S2(A3, I2qo2, 2), S2p(P2q, P2q, 2),
+              D1("Amount", A5, A3, 2), D1("Amount", A1, A1, 3), D1("Position", P2q, P2q, 2), D1("Inventory", I1o3, I1o3, 2),
+              D2("Inventory", "Inventory", I2qo2, I1o2, 2), D2("Position", "Amount", P2q, A2q, 2),
+              D2("Amount", "Inventory", A2q, I1o3, 2) >>
       \* small spaces for the non-vacuity runs
       [] Space = "invnull" -> << S1("Inventory", I1o1, 2) >>
       [] Space = "inv3" -> << S1("Inventory", I1o3, 2) >>
       [] Space = "pos" -> << S1("Position", P2q, 2) >>
       [] Space = "inv2lots" -> << S1("Inventory", I2qa2, 1) >>
+      [] Space = "dup" -> << D1("Amount", A1, A1, 1) >>
       \* spaces emitted for the spec -> code replay (Gen_Numberify)
       [] Space = "gen-quick" ->
            << S1("Amount", A01q, 2), S1("Position", P01q, 2), S1("Inventory", I1o3, 3), S1("Inventory", I2qa2, 2),
-              S1("Inventory", I2a6, 1), S2(A1, I1o2, 2) >>
+              S1("Inventory", I2a6, 1), S2(A1, I1o2, 2),
+              D1("Amount", A01q, A1, 2), D1("Position", P1, Pq, 1), D2("Inventory", "Inventory", I1o1, I1o2, 2),
+              D2("Position", "Amount", P1, A1, 1) >>
       [] Space = "gen-shell" -> << S1("Inventory", I2qo3, 2), S1("Inventory", I1o3, 3) >>
       \* thorough replay, in two runs (bounds the memory of the driver)
       [] Space = "gen-thorough-1" ->
            << S1("Amount", A5, 3), S1("Position", P01q, 3), S1("Position", P5, 2), S1("Inventory", I2qo3, 3) >>
       [] Space = "gen-thorough-2" ->
            << S1("Inventory", I3a2, 2), S1("Inventory", I3a6, 1), S2(A2q, I1o2, 2), S2p(P2q, Pq, 2) >>
+      \* part 3: equally named columns
+      [] Space = "gen-thorough-3" ->
+           << D1("Amount", A5, A2q, 2), D1("Amount", A1, A1, 3), D1("Position", P2q, Pq, 2), D1("Inventory", I1o2, I1o3, 2),
+              D2("Inventory", "Inventory", I2qo2, I1o1, 2), D2("Position", "Amount", P2q, A2q, 2),
+              D2("Amount", "Inventory", A2q, I1o3, 2) >>
 =============================================================================
